@@ -2,7 +2,8 @@
 
    case   = ( ppmode ( orc orc orc orc ) ( step ... ) )
      ppmode = 0|1                       preprocessor cache mode of the DiskCache
-     orc    = ( pp_status upd c_status c_out )      the fake compiler's behaviour for translation unit 0..3
+     orc    = ( pp_status upd c_status c_out )      the fake compiler's behaviour for translation unit 0..3;
+                                                    status 99 = the server's own code panics before spawning it
    step   = ( req tu class cc outdir_ok ( ppget ppupd ppput get put ) )
           | ( par req req ... )          concurrent requests (distinct translation units, no transient faults)
           | ( midzero req )            ZeroStats issued while the request is held inside its cache lookup
@@ -14,6 +15,7 @@
           | ( heal )                     the directory is usable again (same server: lazily opened stores must retry)
           | ( restart rw|ro )
           | ( zero )
+     every fault position also takes `panic` (the storage call panics)
      class  = compile | unsupported | vanished | notcompile | cannotcache | cannotcache2
      cc     = default | recache | nocache
    result = ( obs ... ), one per step:
@@ -58,20 +60,23 @@ Definition mk_oracle (ppmode : bool) (t : N) (x : sx) : oracle :=
             generate_hash_key is still in the code (and in the model) but no lookup takes it any more.  The
             case's [upd] flag still makes the harness put __TIMESTAMP__ into the unit's header. *)
          o_upd := false && get_bool upd;
-         o_pp_status := get_N pps;
+         o_pp_status := if get_N pps =? 99 then 0 else get_N pps;
          o_pp_stderr := bs "ppe" ++ digit t;
          o_manifest_ok := true;
          o_key := tu_key t;
-         o_c_status := get_N cs;
+         o_c_status := if get_N cs =? 99 then 0 else get_N cs;
          o_c_stdout := bs "out" ++ digit t;
          o_c_stderr := bs "err" ++ digit t;
          o_c_outputs := [(bs "obj", tu_obj t)];
          o_c_writes := get_bool cout;
-         o_cacheable := true |}
+         o_cacheable := true;
+         o_pp_panics := get_N pps =? 99;
+         o_c_panics := get_N cs =? 99 |}
   | _ =>
       {| o_lang := {| l_lang := 0; l_adv := 0 |}; o_pp_key := None; o_manifest := 0; o_upd := false;
          o_pp_status := 0; o_pp_stderr := []; o_manifest_ok := true; o_key := tu_key t; o_c_status := 0;
-         o_c_stdout := []; o_c_stderr := []; o_c_outputs := []; o_c_writes := true; o_cacheable := true |}
+         o_c_stdout := []; o_c_stderr := []; o_c_outputs := []; o_c_writes := true; o_cacheable := true;
+         o_pp_panics := false; o_c_panics := false |}
   end.
 
 (* with the output directory missing the fake compiler cannot write its object file: exit 1, "nodir" *)
@@ -81,23 +86,24 @@ Definition adjust (outdir_ok : bool) (o : oracle) : oracle :=
     {| o_lang := o_lang o; o_pp_key := o_pp_key o; o_manifest := o_manifest o; o_upd := o_upd o;
        o_pp_status := o_pp_status o; o_pp_stderr := o_pp_stderr o; o_manifest_ok := o_manifest_ok o;
        o_key := o_key o; o_c_status := 1; o_c_stdout := []; o_c_stderr := bs "nodir";
-       o_c_outputs := o_c_outputs o; o_c_writes := o_c_writes o; o_cacheable := o_cacheable o |}
+       o_c_outputs := o_c_outputs o; o_c_writes := o_c_writes o; o_cacheable := o_cacheable o;
+       o_pp_panics := o_pp_panics o; o_c_panics := o_c_panics o |}
   else o.
 
 Definition dec_ppget (x : sx) : ppget_fault :=
   if is_sym "absent" x then PFAbsent else if is_sym "err" x then PFErr
   else if is_sym "garbage" x then PFGarbage else if is_sym "truncated" x then PFTruncated
-  else if is_sym "empty" x then PFEmpty else PFNone.
+  else if is_sym "empty" x then PFEmpty else if is_sym "panic" x then PFPanic else PFNone.
 
 Definition dec_put (x : sx) : put_fault :=
   if is_sym "err" x then WErr else if is_sym "toolarge" x then WTooLarge
-  else if is_sym "ro" x then WReadOnly else WNone.
+  else if is_sym "ro" x then WReadOnly else if is_sym "panic" x then WPanic else WNone.
 
 Definition dec_get (x : sx) : get_fault :=
   if is_sym "miss" x then GMiss else if is_sym "err" x then GErr
   else if is_sym "timeout" x then GTimeout else if is_sym "garbage" x then GGarbage
   else if is_sym "truncated" x then GTruncated else if is_sym "badobj" x then GBadObj
-  else if is_sym "noobj" x then GNoObj else GNone.
+  else if is_sym "noobj" x then GNoObj else if is_sym "panic" x then GPanic else GNone.
 
 Definition dec_faults (outdir_ok : bool) (x : sx) : faults :=
   match x with
@@ -188,9 +194,11 @@ Definition enc_disk_m (m : mstate) : sx :=
 Definition apply_actions (acts : list action) (s : stats) : stats :=
   fold_left (fun s a => apply_action a s) acts s.
 
-(* one request: new cache state, response, its critical sections, its translation unit *)
+(* one request: new cache state, response, its critical sections, its translation unit, and whether it reaches
+   its cache lookup (`Storage::get`: executed, CacheControl::Default, hash key obtained) — only then can the harness
+   hold it in flight *)
 Definition run_req (ppmode : bool) (orcs : list sx) (faults_on broken : bool) (x : sx) (st : cstate)
-  : cstate * response * list action * N :=
+  : cstate * response * list action * N * bool :=
   match x with
   | SL [_; t; cl; cc; ok; fs] =>
       let tu := get_N t in
@@ -198,20 +206,12 @@ Definition run_req (ppmode : bool) (orcs : list sx) (faults_on broken : bool) (x
       let f0 := if faults_on then dec_faults (get_bool ok) fs else dec_faults (get_bool ok) (SL []) in
       let f := if broken then broken_over (cs_ro st) f0 else f0 in
       let '(st', r, acts) := request f (dec_class cl) (dec_cc cc) o st in
-      (st', r, acts, tu)
-  | _ => (st, not_executed CFatal, [], 0)
-  end.
-
-(* does the request reach its cache lookup (`Storage::get`)?  Only then can the harness hold it in flight. *)
-Definition reaches_lookup (x : sx) (r : response) : bool :=
-  match x with
-  | SL [_; _; cl; cc; _; _] =>
-      match dec_class cl, dec_cc cc, r_outcome r with
-      | QCompile, CCDefault, Some OError => false
-      | QCompile, CCDefault, Some _ => true
-      | _, _, _ => false
-      end
-  | _ => false
+      let reached := match dec_class cl, dec_cc cc, generate_hash_key f (dec_cc cc) o st with
+                     | QCompile, CCDefault, (_, HKKey _, _) => true
+                     | _, _, _ => false
+                     end in
+      (st', r, acts, tu, reached)
+  | _ => (st, not_executed CFatal, [], 0, false)
   end.
 
 Fixpoint add_at (i : nat) (v : N) (l : list N) : list N :=
@@ -226,7 +226,7 @@ Fixpoint run_par (ppmode : bool) (orcs : list sx) (xs : list sx) (m : mstate) (r
   match xs with
   | [] => (m, rev res, pp, cc)
   | x :: r =>
-      let '(st', rsp, acts, tu) := run_req ppmode orcs false (m_broken m || m_dead m) x (m_cache m) in
+      let '(st', rsp, acts, tu, _) := run_req ppmode orcs false (m_broken m || m_dead m) x (m_cache m) in
       run_par ppmode orcs r {| m_cache := st'; m_stats := apply_actions acts (m_stats m); m_broken := m_broken m; m_dead := m_dead m |}
               (enc_result rsp :: res)
               (add_at (N.to_nat tu) (r_pp_runs rsp) pp) (add_at (N.to_nat tu) (r_cc_runs rsp) cc)
@@ -237,7 +237,7 @@ Definition run_one (ppmode : bool) (orcs : list sx) (m : mstate) (x : sx) : msta
   match x with
   | SL (tag :: args) =>
       if is_sym "req" tag then
-        let '(st', rsp, acts, _) := run_req ppmode orcs true (b || m_dead m) x (m_cache m) in
+        let '(st', rsp, acts, _, _) := run_req ppmode orcs true (b || m_dead m) x (m_cache m) in
         let m' := {| m_cache := st'; m_stats := apply_actions acts (m_stats m); m_broken := b; m_dead := m_dead m |} in
         (m', SL [sym "req"; enc_result rsp; SN (r_pp_runs rsp); SN (r_cc_runs rsp);
                  enc_disk_m m'; enc_stats (m_stats m')])
@@ -247,8 +247,8 @@ Definition run_one (ppmode : bool) (orcs : list sx) (m : mstate) (x : sx) : msta
            the cache up completes first and the zeroing comes after it. *)
         match args with
         | [rq] =>
-            let '(st', rsp, acts, _) := run_req ppmode orcs true (b || m_dead m) rq (m_cache m) in
-            let s' := if reaches_lookup rq rsp then apply_actions (skipn 2 acts) zero_stats else zero_stats in
+            let '(st', rsp, acts, _, reached) := run_req ppmode orcs true (b || m_dead m) rq (m_cache m) in
+            let s' := if reached then apply_actions (skipn 2 acts) zero_stats else zero_stats in
             let m' := {| m_cache := st'; m_stats := s'; m_broken := b; m_dead := m_dead m |} in
             (m', SL [sym "midzero"; enc_result rsp; SN (r_pp_runs rsp); SN (r_cc_runs rsp);
                      enc_disk_m m'; enc_stats (m_stats m')])
